@@ -24,6 +24,8 @@ func main() {
 	switch flag.Arg(0) {
 	case "c37":
 		c37(*keys, sz, flag.Args()[1:])
+	case "c37seq":
+		c37seq(*keys, *seed, *n)
 	case "c34":
 		c34(*seed, *n, *ops)
 	case "c28":
